@@ -450,6 +450,45 @@ def build_T18(tree):
                                {'len(stored_values)': ('int', 'nStoredValues')},
                                doc='`Measurements.get_values`: indices are the stored list minus one, or `arange(n)`; the number of '
                                    'stored values must equal the number of indices'))
+    # ---------------- the check the group constructor applies to every item of `measurements`
+    mloops = [n for n in ast.walk(init) if isinstance(n, ast.For) and _norm(n.iter) == 'enumerate(measurements)']
+    if len(mloops) != 1:
+        raise Unsupported('AnnotationGroup.__init__: loop over enumerate(measurements) not found')
+    mbody = mloops[0].body
+    shas.append(span_sha(mbody))
+    mblk = []
+    appended = False
+    for st in mbody:
+        if isinstance(st, ast.Assign) and _norm(st.targets[0]) == 'error_message':
+            continue
+        if isinstance(st, ast.Assign) and _norm(st.targets[0]) == 'number_of_values':
+            if _norm(st.value) != "getattr(item,'_number_of_values',None)":
+                raise Unsupported('measurements loop: number_of_values is no longer getattr(item, "_number_of_values", None)')
+            continue
+        if isinstance(st, ast.Try):
+            if not (len(st.body) == 1 and _norm(st.body[0]) == 'measured_values=item.get_values(self.NumberOfAnnotations)'
+                    and len(st.handlers) == 1 and _norm(st.handlers[0].type) == 'IndexError' and len(st.handlers[0].body) == 1
+                    and isinstance(st.handlers[0].body[0], ast.Raise) and _norm(st.handlers[0].body[0].exc.func) == 'ValueError'
+                    and not st.orelse and not st.finalbody):
+                raise Unsupported('measurements loop: try get_values / except IndexError -> ValueError changed shape')
+            mblk.append(ast.parse('if get_values_raises_index_error:\n    raise ValueError("count")').body[0])
+            continue
+        if isinstance(st, ast.Expr) and _norm(st.value) == 'self.MeasurementsSequence.append(item)':
+            appended = True
+            continue
+        mblk += _fresh([st])
+    if not appended or _norm(mbody[-1]) != 'self.MeasurementsSequence.append(item)':
+        raise Unsupported('measurements loop no longer ends in self.MeasurementsSequence.append(item)')
+    mblk.append(ast.parse('return 0').body[0])
+    for s2 in mblk:
+        ast.fix_missing_locations(s2)
+    out.append(translate_block(mblk, 'measCheckPlan', [('number_of_values', 'optint'), ('get_values_raises_index_error', 'bool')],
+                               {'isinstance(item, Measurements)': ('bool', 'isMeasurements'), 'self.NumberOfAnnotations': ('int', 'nAnn'),
+                                'len(measured_values)': ('int', 'nValues')},
+                               doc='loop body of `for i, item in enumerate(measurements)` in `AnnotationGroup.__init__`: TypeError for a '
+                                   'non-Measurements item, ValueError when the remembered number of values differs from NumberOfAnnotations, '
+                                   'when `get_values` raises IndexError (`try/except` rewritten as the input `get_values_raises_index_error`) '
+                                   'or returns another length; 0 = the item is appended'))
     mi = find_func(tree, 'Measurements.__init__')
     meas_write = None
     for node in ast.walk(mi):
